@@ -14,8 +14,8 @@ FaultsFull ==
       F("lone", 1, 0, 0),
       F("frag", 1, 2, "tail"), F("frag", 1, 1, "tail"), F("frag", 2, 6, "tail"),
       F("frag", 1, 2, "tailx"), F("frag", 1, 2, "tailc"),
-      F("dup", 1, 0, 0), F("ansg", 1, 0, 0), F("gans", 1, 0, 0),
-      F("pclose", 2, 0, 0),
+      F("dup", 1, 0, 0), F("ansg", 1, 0, 0), F("gans", 1, 0, 0), F("dupx", 1, 0, 2), F("ansx", 1, 0, 2),
+      F("pclose", 2, 0, 0), F("eof", 2, 0, 0),
       F("err", 2, 0, 101), F("err", 2, 0, 111) }
 
 \* C06's assumption: each transmission is answered at most once and before its timeout
@@ -25,7 +25,7 @@ FaultsAssume ==
 \* a reduced alphabet for longer histories (C05, C10)
 FaultsHist ==
     { F("drop", 0, 0, 0), F("ans", 1, 0, 0), F("garb", 1, 0, 0), F("exc", 1, 0, 2),
-      F("pclose", 2, 0, 0), F("err", 2, 0, 101), F("frag", 1, 2, "tail"), F("lone", 1, 0, 0) }
+      F("pclose", 2, 0, 0), F("eof", 2, 0, 0), F("err", 2, 0, 101), F("frag", 1, 2, "tail"), F("lone", 1, 0, 0) }
 
 FxAll == {"A", "B", "C", "D", "E", "F"}
 FxNone == {}
